@@ -49,6 +49,14 @@ class PLISTNode(ContainerNode):
     def __len__(self) -> int:
         return 1
 
+    def __eq__(self, other):
+        if isinstance(other, PLISTNode):
+            return self.root == other.root
+        return self.root == other
+
+    def __hash__(self):
+        return hash(self.root)
+
     def __repr__(self):
         return f"{self.__class__.__name__}({self.root!r})"
 
